@@ -38,6 +38,26 @@ CLAIMED["C09"] = dict(
     technique="explicit-state BFS over operation histories on the implementation with canonical-state dedup and reference span model",
     design_ref="3/C09")
 
+CLAIMED["C17"] = dict(
+    level="exploration",
+    text="Exhaustive sweeps: CodeWriterUtils::write_offset for every OffsetFormat the backends construct or fixup.h defines x every offset in "
+         "range plus bands outside (all values for fields <=26 bits in quick, all 2^32 in thorough) x two backgrounds; all logical/add-sub/fp8 "
+         "immediates (all 2^32 32-bit values, all DecodeBitMasks images and neighbours); move-wide sequences, bitfield aliases and branch "
+         "displacements through a64::Assembler; every case judged by reference decoders written from the Arm ARM / Intel SDM.",
+    note="Trusts the harness's architectural reference decoders; 64-bit fields are covered by a boundary lattice only; write_offset is tested with a zero field (it ORs into the word).",
+    technique="exhaustive enumeration of the input space (every value of every format) on the implementation against independent reference decoders",
+    design_ref="3/C17", engine="harness/c17_codecs.cpp")
+
+CLAIMED["C11"] = dict(
+    level="model_checking",
+    text="Stateless exploration of all interleavings with <=2 (quick) / <=3 (thorough) preemptions of 2-3 real threads per scenario (allocator "
+         "ops, JitRuntime add/call/release, independent Assembler/Compiler use) under a cooperative scheduler; scheduling points at every "
+         "interposed pthread_mutex_lock/unlock and operation boundary; ThreadSanitizer judges every explored schedule seeing only the "
+         "library's own lock; per-thread content/ownership checks, final statistics, byte equality with the solo run; plus a free-running TSan pass.",
+    note="Sequentially consistent interleavings only; weak-memory effects and schedules beyond the preemption bound are not covered; host/VM info is initialised before threads start (as the property allows).",
+    technique="stateless model checking of thread schedules with iterative preemption bounding over hooked synchronisation points, TSan as oracle",
+    design_ref="3/C11", engine="engine/sched.c")
+
 NOT_YET = "check not built yet in this round (planned, see DESIGN.md section 3); not claimed until it exists and passes"
 
 
@@ -68,7 +88,10 @@ def main():
                    source_commits=[],
                    add_only=True),
         engines=[
-            dict(name="xplor", path="engine/xplor.h", serves_properties=sorted(CLAIMED.keys()),
+            dict(name="sched", path="engine/sched.c", serves_properties=["C11"],
+                 kind_free_text="cooperative scheduler for real pthreads (uninstrumented TU, raw futex hand-off) with link-time interposed "
+                                "pthread_mutex_*; preemption-bounded stateless exploration of schedules under ThreadSanitizer"),
+            dict(name="xplor", path="engine/xplor.h", serves_properties=sorted(k for k in CLAIMED.keys() if k != "C11"),
                  kind_free_text="bounded exhaustive explorer run on the real code: deviation-bounded DFS over choice "
                                 "sequences and BFS over operation histories with canonical-state dedup and canon-on-replay"),
         ],
